@@ -249,6 +249,14 @@ impl RuntimeData {
     pub fn free_object(&mut self, obj: NonNull<CaoLangObject>) {
         unsafe {
             std::ptr::drop_in_place(obj.as_ptr());
+            #[cfg(feature = "verif-hooks")]
+            if crate::verif_hooks::quarantine_enabled() {
+                crate::verif_hooks::release_without_free(
+                    &self.memory,
+                    Layout::new::<CaoLangObject>(),
+                );
+                return;
+            }
             self.memory
                 .dealloc(obj.cast(), Layout::new::<CaoLangObject>());
         }
